@@ -15,6 +15,7 @@ mod c27;
 mod c30;
 mod common;
 mod witness;
+mod witness_gens;
 
 fn main() {
     let id = std::env::args().nth(1).unwrap_or_default();
